@@ -1419,3 +1419,31 @@ func init() {
 		return extPoolGet(fr, args)
 	}
 }
+
+func init() {
+	swap := func(fr *frame, args []value) value {
+		p := args[0].(*value)
+		if p == nil {
+			panic(nilDeref())
+		}
+		old := *p
+		*p = args[1]
+		return old
+	}
+	for _, n := range []string{"SwapUint32", "SwapInt32", "SwapUint64", "SwapInt64", "SwapPointer", "SwapUintptr"} {
+		externals["sync/atomic."+n] = swap
+	}
+	for _, n := range []string{"AndUint32", "OrUint32", "AndInt32", "OrInt32"} {
+		n := n
+		externals["sync/atomic."+n] = func(fr *frame, args []value) value {
+			p := args[0].(*value)
+			old := *p
+			op := token.AND
+			if strings.HasPrefix(n, "Or") {
+				op = token.OR
+			}
+			*p = binop(fr.i, op, nil, old, args[1])
+			return old
+		}
+	}
+}
